@@ -29,6 +29,7 @@ import ChessVerif.Proofs.TunerVectorWrite
 import ChessVerif.Proofs.EvalEnvelope
 import ChessVerif.Proofs.EvalBoundShipped
 import ChessVerif.Model.Abs
+import ChessVerif.Proofs.EvalFloatError
 
 namespace ChessVerif.Props.C19
 open ChessVerif ChessVerif.TunerVector
@@ -272,5 +273,188 @@ example : Board.valid knbBoard = true := by decide +kernel
 example : noInt16Wrap shipped (input nineQueens) = true := noWrap_shipped _ (by decide +kernel)
 
 end noWrap
+
+/-! ### (a) the floating-point gap: IEEE-754 binary64 model of `Eval[float64]`
+
+  `Model/F64.lean` models float64 arithmetic (round to nearest even on 53 significant bits, gradual
+  underflow, overflow flagged by `ok = false`, signed zero, `math.Float64bits`); `Model/EvalF.lean`
+  instantiates the generic evaluation with it (`opsF σF`, one rounding per Go operation, in Go's order;
+  the float sigmoid is the parameter `σF` = the real function `sigmoidal[float64]` computes, `math.Exp`
+  inside it is NOT modelled).  The theorems below close C19 (a) for THAT model:
+
+  * `float_exact_*` — (i) every addend and every partial sum of every accumulator before the sigmoid and
+    the taper is an integer of magnitude < 2^31 and is computed exactly (any int16 coefficient set, any
+    input);
+  * `float_vs_exact` — (ii) the roundings that remain (accumulator + sigmoid value, the differences,
+    the taper's two multiplications by the phase, its addition, `v *= 100 - fifty`, `/ MaxPhase`, `/ 100`)
+    contribute at most 2^-33 centipawns, and no operation overflows or divides by zero;
+  * `float_vs_int` — (iii) for every valid position and every `σF` with `TableNear σF`:
+    |tunerEvalF σF shippedF b − tunerEvalInt shipped b| < 9/4.
+
+  What remains OUTSIDE Lean (trusted base, measured by the tunereval harness, suites D0–D3):
+  that Go's float64 `+ - * /`, `float64(int)` and `math.Float64bits` on amd64 (GOAMD64=v1, no fused
+  multiply-add) are the IEEE-754 operations of Model/F64.lean (D1: bit-for-bit on random operands), that
+  `eval.Eval[float64]` performs the operations of `opsF` in that order (D3: bit-for-bit on every generated
+  position, shipped and random coefficients), and that Go's float sigmoid — `math.Exp` included —
+  satisfies `TableNear` (D2: all 65536 int16 arguments, compared with the table in exact rationals). -/
+
+section floatGap
+open ChessVerif.Eval ChessVerif.IEEE
+
+/-- the tuner's coefficient conversion in the float model is `float64(·)` of the shipped leaves. -/
+theorem engineCoeffsF_shipped : shippedF = toF shipped := shippedF_eq
+
+/-- IEEE-754 rounding error of the model: half a unit in the last place, i.e. relative 2^-53 in the
+    normal range and absolute 2^-1075 in the subnormal range. -/
+theorem f64_round_error (x : ℚ) :
+    |round x - x| ≤ ulp x / 2 ∧ |round x - x| ≤ |x| / 2 ^ 53 + 1 / 2 ^ 1075 :=
+  ⟨round_err x, round_err' x⟩
+
+/-- `round` IS IEEE-754 round-to-nearest-even on the grid of doubles of the binade of `x` (spacing
+    `ulp x = 2^(max(⌊log₂|x|⌋, -1022) - 52)`): the result is a grid point, no grid point is nearer, and the
+    integer rounding it is built from resolves a tie to the even neighbour. -/
+theorem f64_round_nearest_even (x : ℚ) :
+    (∃ m : Int, round x = (m : ℚ) * ulp x) ∧ (∀ m : Int, |round x - x| ≤ |(m : ℚ) * ulp x - x|) ∧
+    (∀ r : ℚ, r - r.floor = 1 / 2 → rne r % 2 = 0) :=
+  ⟨round_on_grid x, round_nearest x, rne_tie_even⟩
+
+/-- `ilog2` is the binary exponent: `2^(ilog2 x) ≤ |x| < 2^(ilog2 x + 1)` (so `ulp` is the spacing of
+    doubles in the binade of `x`). -/
+theorem f64_exponent (x : ℚ) (hx : x ≠ 0) : pow2 (ilog2 x) ≤ |x| ∧ |x| < pow2 (ilog2 x + 1) :=
+  ⟨ilog2_le x hx, ilog2_lt x hx⟩
+
+/-- every integer of magnitude ≤ 2^53 is a double; `float64(n)` is exact there. -/
+theorem f64_int_exact (n : Int) (h1 : -(2 ^ 53) ≤ n) (h2 : n ≤ 2 ^ 53) :
+    (F64.ofInt n).val = n ∧ (F64.ofInt n).ok = true := ofInt_ex n h1 h2
+
+/-- **(i) exactness, accumulators before the king-attack term**: for EVERY integer coefficient set with
+    int16 entries (converted by `float64(·)`), every input, both colours and game phases, the float
+    accumulator `sp.mg/eg[c]` just before `addKingAttacks` holds exactly the integer the exact-integer
+    evaluation computes (all partial sums are integers below 2^31; nothing was rounded). -/
+theorem float_exact_rest (σF : ℚ → ℚ) (cs : CoeffSet Int) (hcs : cs.all inRange16 = true) (i : EvalInput)
+    (ph : Nat) (c : Color) :
+    (sum (opsF σF) (restTerms (opsF σF) (toF cs) i ph c)).val = ((sum opsZ (restTerms opsZ cs i ph c) : Int) : ℚ) ∧
+    (sum (opsF σF) (restTerms (opsF σF) (toF cs) i ph c)).ok = true :=
+  (restF_ex σF cs hcs i ph c).1
+
+/-- **(i) exactness, sigmoid arguments**: the four king-attack scores handed to the float sigmoid are
+    exactly the integers the engine looks up in its table. -/
+theorem float_exact_ka (σF : ℚ → ℚ) (cs : CoeffSet Int) (hcs : cs.all inRange16 = true) (i : EvalInput)
+    (ph : Nat) (c : Color) :
+    (sum (opsF σF) (kaTerms (opsF σF) (toF cs) i ph c)).val = ((sum opsZ (kaTerms opsZ cs i ph c) : Int) : ℚ) ∧
+    (sum (opsF σF) (kaTerms (opsF σF) (toF cs) i ph c)).ok = true :=
+  kaF_ex σF cs hcs i ph c
+
+/-- **(i) exactness, knight + bishop mate path** (no sigmoid, no taper: the whole result is exact). -/
+theorem float_exact_knb (σF : ℚ → ℚ) (cs : CoeffSet Int) (hcs : cs.all inRange16 = true) (i : EvalInput) (c : Color) :
+    (sum (opsF σF) (pieceValueTerms (opsF σF) (toF cs) i 1 c ++ knbvkTerms (opsF σF) (toF cs) i 1 c)).val =
+      ((sum opsZ (pieceValueTerms opsZ cs i 1 c ++ knbvkTerms opsZ cs i 1 c) : Int) : ℚ) ∧
+    (sum (opsF σF) (pieceValueTerms (opsF σF) (toF cs) i 1 c ++ knbvkTerms (opsF σF) (toF cs) i 1 c)).ok = true :=
+  (knbF_ex σF cs hcs i c).1
+
+/-- the explicit rounding bound is far below the 1/4 (+ 1/2400) of slack that the exact-arithmetic
+    envelope 4799/2400 leaves under 9/4. -/
+theorem epsF_small : epsF = 1 / 2 ^ 33 ∧ epsF < 1 / 8000000000 ∧ (4799 / 2400 : ℚ) + epsF < 9 / 4 := by
+  unfold epsF; norm_num
+
+/-- **(ii) the remaining roundings**: on every valid position, with the shipped coefficients and any
+    sigmoid near the table, the float evaluation stays inside the float model's domain (no overflow,
+    no division by zero: `ok`) and is within `epsF = 2^-33` centipawns of the exact-rational evaluation
+    with the same sigmoid. -/
+theorem float_vs_exact (σF : ℚ → ℚ) (hσ : TableNear σF) (b : Board) (hv : Board.valid b = true) :
+    (evalF σF shippedF b).ok = true ∧ |(evalF σF shippedF b).val - evalQ σF shippedQ b| ≤ epsF := by
+  rw [shippedF_eq, shippedQ_eq]
+  exact evalF_vs_evalQ σF hσ shipped Bound.boundOK_shipped (input b) (Bound.men15_of_valid b hv)
+    (Bound.fifty_of_valid b hv)
+
+/-- the same with the tuner's white-relative sign (`score = -score` is exact). -/
+theorem tunerEvalF_vs_exact (σF : ℚ → ℚ) (hσ : TableNear σF) (b : Board) (hv : Board.valid b = true) :
+    (tunerEvalF σF shippedF b).ok = true ∧ |(tunerEvalF σF shippedF b).val - tunerEvalQ σF shippedQ b| ≤ epsF := by
+  obtain ⟨h1, h2⟩ := float_vs_exact σF hσ b hv
+  unfold tunerEvalF tunerEvalQ
+  by_cases hs : b.stm = .black
+  · simp only [hs, if_true]
+    refine ⟨h1, ?_⟩
+    show |-(evalF σF shippedF b).val - -evalQ σF shippedQ b| ≤ epsF
+    rw [show -(evalF σF shippedF b).val - -evalQ σF shippedQ b = -((evalF σF shippedF b).val - evalQ σF shippedQ b) by ring,
+      abs_neg]
+    exact h2
+  · simp only [hs, if_false]
+    exact ⟨h1, h2⟩
+
+/-- **(iii) float_vs_int — C19 (a) for the float64 model.**  For every valid position and every float
+    sigmoid `σF` within 1/2 of the integer table on the int16 arguments, the tuner's evaluation
+    (`EngineRep.Eval`: `Eval[float64]` with the shipped coefficients converted to floats, white-relative
+    sign), computed in IEEE-754 binary64 arithmetic operation by operation, never overflows and differs
+    from the engine's integer evaluation (white-relative) by less than 2.25 centipawns
+    (by at most 4799/2400 + 2^-33). -/
+theorem float_vs_int (σF : ℚ → ℚ) (hσ : TableNear σF) (b : Board) (hv : Board.valid b = true) :
+    (tunerEvalF σF shippedF b).ok = true ∧
+    |(tunerEvalF σF shippedF b).val - ((tunerEvalInt shipped b : Int) : ℚ)| < 9 / 4 := by
+  obtain ⟨h1, h2⟩ := tunerEvalF_vs_exact σF hσ b hv
+  obtain ⟨q1, q2⟩ := int_vs_exact_shipped_partial σF hσ b (noWrap_shipped b hv)
+  refine ⟨h1, ?_⟩
+  have hq : |tunerEvalQ σF shippedQ b - ((tunerEvalInt shipped b : Int) : ℚ)| ≤ 4799 / 2400 := by
+    rw [abs_le]; exact ⟨q1, q2⟩
+  have htri := abs_add_le ((tunerEvalF σF shippedF b).val - tunerEvalQ σF shippedQ b)
+    (tunerEvalQ σF shippedQ b - ((tunerEvalInt shipped b : Int) : ℚ))
+  rw [show (tunerEvalF σF shippedF b).val - tunerEvalQ σF shippedQ b +
+      (tunerEvalQ σF shippedQ b - ((tunerEvalInt shipped b : Int) : ℚ)) =
+      (tunerEvalF σF shippedF b).val - ((tunerEvalInt shipped b : Int) : ℚ) by ring] at htri
+  have := epsF_small.2.2
+  linarith
+
+/-- the sharper form: the float evaluation is within 4799/2400 + 2^-33 of the integer evaluation. -/
+theorem float_vs_int_sharp (σF : ℚ → ℚ) (hσ : TableNear σF) (b : Board) (hv : Board.valid b = true) :
+    |(tunerEvalF σF shippedF b).val - ((tunerEvalInt shipped b : Int) : ℚ)| ≤ 4799 / 2400 + epsF := by
+  obtain ⟨_, h2⟩ := tunerEvalF_vs_exact σF hσ b hv
+  obtain ⟨q1, q2⟩ := int_vs_exact_shipped_partial σF hσ b (noWrap_shipped b hv)
+  have hq : |tunerEvalQ σF shippedQ b - ((tunerEvalInt shipped b : Int) : ℚ)| ≤ 4799 / 2400 := by
+    rw [abs_le]; exact ⟨q1, q2⟩
+  have htri := abs_add_le ((tunerEvalF σF shippedF b).val - tunerEvalQ σF shippedQ b)
+    (tunerEvalQ σF shippedQ b - ((tunerEvalInt shipped b : Int) : ℚ))
+  rw [show (tunerEvalF σF shippedF b).val - tunerEvalQ σF shippedQ b +
+      (tunerEvalQ σF shippedQ b - ((tunerEvalInt shipped b : Int) : ℚ)) =
+      (tunerEvalF σF shippedF b).val - ((tunerEvalInt shipped b : Int) : ℚ) by ring] at htri
+  linarith
+
+/-- The full-strength statement of C19 (a) over the float model, as a `Prop` (what `float_vs_int` proves). -/
+def C19a_float_full : Prop :=
+  ∀ σF : ℚ → ℚ, TableNear σF → ∀ b : Board, Board.valid b = true →
+    (tunerEvalF σF shippedF b).ok = true ∧
+    |(tunerEvalF σF shippedF b).val - ((tunerEvalInt shipped b : Int) : ℚ)| < 9 / 4
+
+theorem C19a_float_full_holds : C19a_float_full := float_vs_int
+
+/-! non-vacuity of the float part -/
+
+/-- the table read as a step function (also used above) is a sigmoid near the table … -/
+def σTable : ℚ → ℚ := fun q => ((sigmTable q.floor : Int) : ℚ)
+theorem σTable_near : TableNear σTable := by
+  intro n _ _
+  simp only [σTable, Rat.floor_intCast, sub_self]
+  norm_num
+
+/-- … so the theorems apply to the valid positions `knbBoard` and `nineQueens`; on `knbBoard`
+    (`8/8/8/4k3/8/2B5/1N6/K7 b`, black to move) the float model's result is the double 1105.0
+    = `0x4091440000000000` and the engine's integer evaluation is 1105 (kernel-evaluated). -/
+example : F64.toBits (tunerEvalF σTable shippedF knbBoard) = 0x4091440000000000 ∧
+    (tunerEvalF σTable shippedF knbBoard).ok = true ∧ tunerEvalInt shipped knbBoard = 1105 := by decide +kernel
+example : |(tunerEvalF σTable shippedF nineQueens).val - ((tunerEvalInt shipped nineQueens : Int) : ℚ)| < 9 / 4 :=
+  (float_vs_int σTable σTable_near nineQueens (by decide +kernel)).2
+
+/-- the arithmetic model is not the identity: it rounds (0.1 + 0.2 is the double `0x3FD3333333333334`,
+    not 3/10), knows `-0` (`-5 · 0`), the constant `-0.2` of the sigmoid, ties-to-even in the subnormal
+    range (3·2^-1074 / 2 = 2·2^-1074), and flags overflow. -/
+example : F64.toBits (F64.add (F64.ofRat (1 / 10)) (F64.ofRat (2 / 10))) = 0x3FD3333333333334 ∧
+    (F64.add (F64.ofRat (1 / 10)) (F64.ofRat (2 / 10))).val ≠ 3 / 10 := by decide +kernel
+example : F64.toBits (F64.mul (F64.ofInt (-5)) (F64.ofInt 0)) = 0x8000000000000000 := by decide +kernel
+example : F64.toBits cNeg02 = 0xBFC999999999999A := by decide +kernel
+example : F64.toBits (F64.div (F64.ofBits 3) (F64.ofInt 2)) = 2 := by decide +kernel
+example : (F64.add (F64.ofBits 0x7FEFFFFFFFFFFFFF) (F64.ofBits 0x7FEFFFFFFFFFFFFF)).ok = false := by decide +kernel
+example : F64.toBits (F64.ofBits 0xC06FE00000000000) = 0xC06FE00000000000 ∧ (F64.ofBits 0xC06FE00000000000).val = -255 := by
+  decide +kernel
+
+end floatGap
 
 end ChessVerif.Props.C19
